@@ -55,7 +55,7 @@ var catalogue = []catEntry{
 	{"t-ctime-old", []int64{-1000, -1, 0, 1, 1000}},
 	{"t-ctime-future", []int64{-1000, -1, 0, 1, 1000}},
 	{"flag-invalid", nil},
-	{"tkt-flip", nil}, {"tkt-trunc", nil}, {"tkt-extend", nil}, {"tkt-forged-plain-appended", nil},
+	{"tkt-flip", nil}, {"tkt-trunc", nil}, {"tkt-extend", nil}, {"tkt-forged-plain-appended", nil}, {"tkt-extra-optionals", nil},
 	{"auth-flip", nil}, {"auth-trunc", nil}, {"auth-extend", nil},
 	{"cname-mismatch", nil}, {"cname-extra-component", nil}, {"cname-fewer-components", nil}, {"cname-empty", nil}, {"crealm-mismatch", nil},
 	{"pac-flipped", nil}, {"pac-wrongkey", nil}, {"pac-sigflipped", nil}, {"pac-truncated", nil}, {"pac-nosig", nil}, {"pac-noinfo", nil},
